@@ -183,11 +183,36 @@ let first_diff ops a b =
     | [], [] -> "differs" in
   go 0 ops ga gb
 
+(* The one place where the property text and the documentation leave the behaviour open:
+   c.Add() with NO values ("Add inserts one or more new values") through a cursor that is stale
+   or was never positioned.  The code returns without touching the cursor; refusing with the
+   cursor's own panic would satisfy "refuses every further use" just as well.  Both are accepted:
+   where the reference says "u" for such an op and the implementation printed the panic that the
+   same group shows for that cursor (Pc.Pc / Pn.Pn), the implementation's token is read as "u". *)
+let tolerate_empty_add ops out want =
+  let go = String.split_on_char ';' out and gw = String.split_on_char ';' want in
+  let rec walk ops go gw =
+    match ops, go, gw with
+    | op :: ops', o :: go', w :: gw' ->
+      let o' =
+        match String.split_on_char ':' op, String.split_on_char '/' o, String.split_on_char '/' w with
+        | ["add"; k; "."], (ro :: resto), ("u" :: _) when (ro = "Pc" || ro = "Pn") ->
+          (match int_opt k with
+           | Some k when k >= 0 && List.length resto > 3 + k && List.nth resto (3 + k) = ro ^ "." ^ ro ->
+             String.concat "/" ("u" :: resto)
+           | _ -> o)
+        | _ -> o in
+      o' :: walk ops' go' gw'
+    | _, go, _ -> go in
+  String.concat ";" (walk ops go gw)
+
 let spec _prop inp out =
   match reference inp with
   | None -> None
   | Some want ->
-    if want = out then None
+    let opl = match List.rev (words inp) with o :: _ -> ops_of o | [] -> [] in
+    let is_list = (match words inp with "L" :: _ -> true | _ -> false) in
+    if want = out || (is_list && tolerate_empty_add opl out want = want) then None
     else
       let ops = match List.rev (words inp) with o :: _ -> ops_of o | [] -> [] in
       Some (first_diff ops out want)
